@@ -212,23 +212,33 @@ func (j *jenv) opLeft(line, kind, tx, gid, addr string) {
 }
 
 func (j *jenv) opSave(line string) {
-	var n int
 	res := gen.Guard(func() string {
 		kvs, err := j.join.Save()
 		if err != nil {
 			return errName(err)
 		}
+		var parts []string
 		for _, kv := range kvs {
 			if kv.Value == nil {
 				j.ldb.Delete(kv.Key)
+				parts = append(parts, hx(kv.Key)+":D")
 			} else {
 				j.ldb.Set(kv.Key, kv.Value)
+				parts = append(parts, hx(kv.Key)+":S")
 			}
 		}
-		n = len(kvs)
-		return "ok"
+		// sorted by key: the order of the list depends on Go map iteration (mergeCache)
+		sort.Strings(parts)
+		for i, p := range parts {
+			k := strings.Split(p, ":")
+			parts[i] = k[1] + ":" + k[0]
+		}
+		if len(parts) == 0 {
+			return "ok -"
+		}
+		return "ok " + strings.Join(parts, ",")
 	})
-	out.Op(line, res+" "+strconv.Itoa(n))
+	out.Op(line, res)
 	out.Stat("join_save", 1)
 	for g := range j.roundUpd {
 		if j.roundDel[g] {
@@ -237,7 +247,7 @@ func (j *jenv) opSave(line string) {
 	}
 	j.roundUpd = map[string]bool{}
 	j.roundDel = map[string]bool{}
-	if res != "ok" {
+	if !strings.HasPrefix(res, "ok") {
 		j.pred("C10|JoinTable.Save|"+statName(res), line+" -> "+res)
 	}
 }
@@ -264,9 +274,14 @@ func (j *jenv) opList(line, index, addr string, status int64) {
 		for _, r := range rows {
 			got = append(got, joinRowString(r))
 		}
+		listed := strings.Join(got, ",") // listing order (key order) is what the model is compared on
 		sort.Strings(got)
-		return strings.Join(got, ",")
+		return listed
 	})
+	sortedRes := res
+	if len(got) > 0 {
+		sortedRes = strings.Join(got, ",")
+	}
 	out.Op(line, res)
 	out.Stat("join_list", 1)
 	if j.tainted {
@@ -288,7 +303,7 @@ func (j *jenv) opList(line, index, addr string, status int64) {
 	if len(exp) == 0 {
 		want = "notfound"
 	}
-	if res != want {
+	if sortedRes != want {
 		kind := "wrong-rows"
 		if res == "notfound" || strings.HasPrefix(res, "err") || res == "decode" {
 			kind = "error-instead-of-rows"
